@@ -18,8 +18,9 @@ static CC_StaticPool *pool;
 static uint8_t *raw, *region, *pstruct;
 static size_t rsize, roff;
 static uint8_t *ptrs[MAXP]; static size_t nptrs;           /* every allocation result, NULLs included */
-static struct { uint8_t *p; size_t n; } shadow[MAXP]; static size_t nshadow;
+static struct { uint8_t *p; size_t n; int pat; } shadow[MAXP]; static size_t nshadow;   /* pat < 0: not written */
 static size_t pat_counter;
+static void check_contents(void);
 static int sparse;      /* obs=sparse: used/free are queried only on `observe` */
 /* private view of used bytes (no call into the library) for the walkers and the shadow list */
 static size_t priv_used(void) { return (size_t)(pool->free_ptr - pool->low_ptr); }
@@ -55,20 +56,34 @@ static void phys(void) {
                 o(" WALK=blocks-overlap");
     }
     if (tot != priv_used()) o(" WALK=used-not-sum-of-live-blocks");
+    check_contents();
     if (!sparse && cc_static_pool_used_bytes(pool) + cc_static_pool_free_bytes(pool) != rsize) o(" WALK=used-plus-free");
     if (cc_static_pool_struct_size() != sizeof(CC_StaticPool)) o(" WALK=struct-size");
 }
+/* every live block still holds the pattern its user wrote: handing out, zeroing or rolling back a
+ * later block must not touch an earlier one */
+static void check_contents(void) {
+    for (size_t i = 0; i < nshadow; i++) {
+        if (shadow[i].pat < 0) continue;
+        for (size_t j = 0; j < shadow[i].n; j++)
+            if (shadow[i].p[j] != (uint8_t)shadow[i].pat) { o(" WALK=block-content-changed"); return; }
+    }
+}
 static void handed_out(uint8_t *p, size_t n, size_t used_before) {
+    check_contents();
     if (nptrs < MAXP) ptrs[nptrs++] = p;
     if (!p) {
         if (priv_used() != used_before) o(" WALK=null-changed-used");
         return;
     }
-    if (nshadow < MAXP) { shadow[nshadow].p = p; shadow[nshadow].n = n; nshadow++; }
+    int pat = -1;
     /* the user writes the whole block (only when it is inside our buffer, else ASan would stop us
        before the walker can report) */
-    if (p >= region && n <= rsize && (size_t)(p - region) <= rsize - n)
-        memset(p, (int)(1 + (pat_counter++ % 250)), n);
+    if (p >= region && n <= rsize && (size_t)(p - region) <= rsize - n) {
+        pat = (int)(1 + (pat_counter++ % 250));
+        memset(p, pat, n);
+    }
+    if (nshadow < MAXP) { shadow[nshadow].p = p; shadow[nshadow].n = n; shadow[nshadow].pat = pat; nshadow++; }
 }
 static void do_op(Cmd *c) {
     if (is_op(c, "new")) {
